@@ -24,12 +24,6 @@ theorem textEndB_spec {follow : Bytes} (h : textEndB follow = true) :
     refine .inr ⟨b, r, rfl, ?_⟩
     simpa [textEndB, or_assoc] using h
 
-theorem nameEndB_spec {follow : Bytes} (h : nameEndB follow = true) :
-    ∀ c r, follow = c :: r → C05.isNameChar c = false := by
-  intro c r e
-  subst e
-  simpa [nameEndB] using h
-
 theorem noKeywordB_spec {inp : Bytes} (h : noKeywordB inp = true) :
     (∀ t, inp ≠ 105 :: 102 :: 32 :: t) ∧ (∀ t, inp ≠ 102 :: 111 :: 114 :: 32 :: t) ∧
     (∀ t, inp ≠ 109 :: 97 :: 116 :: 99 :: 104 :: 32 :: t) := by
@@ -67,13 +61,24 @@ theorem head_comment (X : Bytes) : opt (preceded (char 64) headAlt) (64 :: 42 ::
 theorem head_paren (X : Bytes) : opt (preceded (char 64) headAlt) (64 :: 40 :: X) = .ok X (some [40]) := by
   simp [opt, preceded, pmap, seq, char, headAlt, alt, orElse, tag, isPrefix]
 
-/-- `@` followed by a name start that is not a keyword: the dispatcher consumes the `@` only -/
-theorem head_name (b : UInt8) (X : Bytes) (hb : C05.isNameStart b = true) (hk : noKeywordB (b :: X) = true) :
+theorem dispatchB_spec {b : UInt8} {X : Bytes} (h : dispatchB (b :: X) = true) :
+    (b ≠ 42 ∧ b ≠ 58 ∧ b ≠ 64 ∧ b ≠ 123 ∧ b ≠ 125 ∧ b ≠ 40) ∧ noKeywordB (b :: X) = true := by
+  unfold dispatchB at h
+  split at h
+  · exact absurd h (by decide)
+  · exact absurd h (by decide)
+  · exact absurd h (by decide)
+  · exact absurd h (by decide)
+  · exact absurd h (by decide)
+  · exact absurd h (by decide)
+  · next h1 h2 h3 h4 h5 h6 =>
+    exact ⟨⟨fun e => h1 X (by rw [e]), fun e => h2 X (by rw [e]), fun e => h3 X (by rw [e]),
+      fun e => h4 X (by rw [e]), fun e => h5 X (by rw [e]), fun e => h6 X (by rw [e])⟩, h⟩
+
+/-- `@` followed by text that no earlier arm of the dispatcher takes: the dispatcher consumes the `@` only -/
+theorem head_expr (b : UInt8) (X : Bytes) (hd : dispatchB (b :: X) = true) :
     opt (preceded (char 64) headAlt) (64 :: b :: X) = .ok (b :: X) (some []) := by
-  have hne : b ≠ 42 ∧ b ≠ 58 ∧ b ≠ 64 ∧ b ≠ 123 ∧ b ≠ 125 ∧ b ≠ 40 := by
-    have h := (C05.nameStart_facts b hb).1
-    refine ⟨?_, ?_, ?_, ?_, ?_, ?_⟩ <;> (rintro rfl; revert h; decide)
-  obtain ⟨n1, n2, n3, n4, n5, n6⟩ := hne
+  obtain ⟨⟨n1, n2, n3, n4, n5, n6⟩, hk⟩ := dispatchB_spec hd
   have hkw := keyword_err hk
   have hlast : value ([] : Bytes) (tag []) (b :: X) = .ok (b :: X) [] := value_of _ (tag_nil _)
   have : headAlt (b :: X) = .ok (b :: X) [] := by
@@ -84,6 +89,29 @@ theorem head_name (b : UInt8) (X : Bytes) (hb : C05.isNameStart b = true) (hk : 
       alt_cons_err hkw]
     exact hlast
   exact opt_of (preceded_of (char_cons 64 _) this)
+
+/-- `dispatchB` is exact: the dispatcher returns the empty keyword (and so hands the text after `@` to
+`expression`) **iff** `dispatchB` holds -/
+theorem head_expr_iff (b : UInt8) (X : Bytes) :
+    opt (preceded (char 64) headAlt) (64 :: b :: X) = .ok (b :: X) (some []) ↔ dispatchB (b :: X) = true := by
+  refine ⟨fun h => ?_, head_expr b X⟩
+  cases hd : dispatchB (b :: X) with
+  | true => rfl
+  | false =>
+    exfalso
+    unfold dispatchB at hd
+    split at hd
+    all_goals first
+      | (rename_i heq; obtain ⟨rfl, rfl⟩ := List.cons.inj heq
+         simp [opt, preceded, pmap, seq, char, headAlt, alt, orElse, tag, isPrefix] at h; done)
+      | skip
+    unfold noKeywordB at hd
+    split at hd
+    all_goals first
+      | (rename_i heq; obtain ⟨rfl, rfl⟩ := List.cons.inj heq
+         simp [opt, preceded, pmap, seq, char, headAlt, alt, orElse, tag, isPrefix, terminated] at h; done)
+      | skip
+    exact absurd hd (by decide)
 
 /-! ## leaves -/
 
@@ -96,66 +124,24 @@ theorem comment_node_complete (n : Nat) (body rest : Bytes) (h : noStarAt (body 
     if_neg (by decide +kernel), if_pos (by decide +kernel)]
   exact CallL.pmap_of (commentTail_complete body rest h)
 
-/-- after `@` + a non-keyword name start the rest is handed to `expression` -/
-theorem templateExpression_expr (n : Nat) (b : UInt8) (X : Bytes) (hb : C05.isNameStart b = true)
-    (hk : noKeywordB (b :: X) = true) :
+/-- after `@`, text that no earlier arm of the dispatcher takes is handed to `expression` -/
+theorem templateExpression_expr (n : Nat) (b : UInt8) (X : Bytes) (hd : dispatchB (b :: X) = true) :
     templateExpression (n + 1) (64 :: b :: X) = pmap (expression n) TExpr.expr (b :: X) := by
   rw [templateExpression_eq, headAlt_eq]
-  simp only [pbind, head_name b X hb hk]
+  simp only [pbind, head_expr b X hd]
   rw [if_neg (by decide +kernel), if_neg (by decide +kernel), if_neg (by decide +kernel),
     if_neg (by decide +kernel), if_neg (by decide +kernel), if_neg (by decide +kernel),
     if_neg (by decide +kernel), if_neg (by decide +kernel), if_neg (by decide +kernel)]
 
-/-- **`@name`** -/
-theorem name_node_complete (n : Nat) (hn : 3 ≤ n) (b : UInt8) (cs rest : Bytes) (hok : NameOk b cs)
-    (hk : noKeywordB (b :: cs ++ rest) = true) (hend : nameEndB rest = true) (hs : C05.Stops rest) :
-    templateExpression (n + 1) (64 :: (b :: cs ++ rest)) = .ok rest (.expr (b :: cs)) := by
-  obtain ⟨m, rfl⟩ : ∃ m, n = m + 1 := ⟨n - 1, by omega⟩
-  rw [List.cons_append, templateExpression_expr _ b _ hok.1 (by simpa using hk)]
-  exact CallL.pmap_of (C05.expression_name_complete b cs rest hok.1 hok.2 (nameEndB_spec hend) hs m (by omega))
-
-theorem noKeywordB_call (b : UInt8) (cs X : Bytes) (hok : NameOk b cs) : noKeywordB (b :: cs ++ 40 :: X) = true := by
-  have h32 : C05.isNameChar 32 = false := by decide
-  have hall := hok.2
-  match cs, hall with
-  | [], _ => simp [noKeywordB]
-  | [c1], _ => simp [noKeywordB]
-  | [c1, c2], h =>
-    simp only [List.all_cons, Bool.and_eq_true] at h
-    simp only [List.cons_append, List.nil_append]
-    unfold noKeywordB
-    split <;> first | rfl | (simp_all)
-  | [c1, c2, c3], h =>
-    simp only [List.all_cons, Bool.and_eq_true] at h
-    simp only [List.cons_append, List.nil_append]
-    unfold noKeywordB
-    split <;> first | rfl | (simp_all)
-  | [c1, c2, c3, c4], h =>
-    simp only [List.all_cons, Bool.and_eq_true] at h
-    simp only [List.cons_append, List.nil_append]
-    unfold noKeywordB
-    split <;> first | rfl | (simp_all)
-  | c1 :: c2 :: c3 :: c4 :: c5 :: cs, h =>
-    simp only [List.all_cons, Bool.and_eq_true] at h
-    simp only [List.cons_append]
-    unfold noKeywordB
-    split <;> first | rfl | (simp_all)
-
-/-- **`@name(group)`** -/
-theorem nameCall_node_complete (n : Nat) (b : UInt8) (cs : Bytes) (g : List C05.Grp) (rest : Bytes)
-    (hok : NameOk b cs) (hg : GroupOk g) (hs : C05.Stops rest) (hn : 2 * C05.Grp.depthL g + 4 ≤ n) :
-    templateExpression (n + 1) (64 :: (b :: cs ++ [40] ++ C05.Grp.printL g ++ [41]) ++ rest)
-      = .ok rest (.expr (b :: cs ++ [40] ++ C05.Grp.printL g ++ [41])) := by
-  obtain ⟨m, rfl⟩ : ∃ m, n = m + 1 := ⟨n - 1, by omega⟩
-  have e : 64 :: (b :: cs ++ [40] ++ C05.Grp.printL g ++ [41]) ++ rest =
-      64 :: b :: (cs ++ 40 :: (C05.Grp.printL g ++ [41] ++ rest)) := by simp
-  have hk : noKeywordB (b :: (cs ++ 40 :: (C05.Grp.printL g ++ [41] ++ rest))) = true := by
-    have := noKeywordB_call b cs (C05.Grp.printL g ++ [41] ++ rest) hok
-    simpa using this
-  rw [e, templateExpression_expr _ b _ hok.1 hk]
-  have := C05.expression_call_complete b cs g rest hok.1 hok.2 hg.1 hg.2 hs m (by omega)
-  refine CallL.pmap_of ?_
-  simpa using this
+/-- **`@expression`**: any documented expression -/
+theorem expr_node_complete (n : Nat) (e : C05.DExpr) (rest : Bytes) (hw : e.wf = true)
+    (hd : dispatchB (e.print ++ rest) = true) (hf : e.follows rest = true) (hs : C05.Stops rest) (hn : e.fuel ≤ n) :
+    templateExpression (n + 1) (64 :: e.print ++ rest) = .ok rest (.expr e.print) := by
+  obtain ⟨b, x, hbx, _⟩ := dexpr_head e hw
+  have e1 : 64 :: e.print ++ rest = 64 :: b :: (x ++ rest) := by simp [hbx]
+  have e2 : e.print ++ rest = b :: (x ++ rest) := by simp [hbx]
+  rw [e1, templateExpression_expr n b _ (by rw [← e2]; exact hd), ← e2]
+  exact CallL.pmap_of (C05.expression_complete e rest hw hs hf n hn)
 
 theorem str_rp : str ")" = [41] := by decide +kernel
 
@@ -175,103 +161,20 @@ theorem paren_node_complete (n : Nat) (g : List C05.Grp) (rest : Bytes) (hg : Gr
   have := CallL.pmap_of (f := fun e => TExpr.expr (str "(" ++ e ++ str ")")) (terminated_of h1 h2)
   rw [this, str_lp, str_rp]
 
-/-! ## a plain name as a Rust fragment -/
-
-/-- a byte that ends a name and continues no expression chain -/
-def exprEndB (c : UInt8) : Bool :=
-  !C05.isNameChar c && c != 46 && c != 58 && c != 40 && c != 123 && c != 91 && c != 33
-
-theorem exprEndB_spec {c : UInt8} (h : exprEndB c = true) :
-    C05.isNameChar c = false ∧ c ≠ 46 ∧ c ≠ 58 ∧ c ≠ 40 ∧ c ≠ 123 ∧ c ≠ 91 ∧ c ≠ 33 := by
-  simpa [exprEndB, and_assoc] using h
-
-theorem stops_of_exprEnd (c : UInt8) (x : Bytes) (h : exprEndB c = true) : C05.Stops (c :: x) := by
-  obtain ⟨_, h46, h58, h40, h123, h91, h33⟩ := exprEndB_spec h
-  rw [C05.stops_iff]
-  intro m hm
-  obtain ⟨m, rfl⟩ : ∃ m', m = m' + 1 := ⟨m - 1, by omega⟩
-  refine ⟨_, chainStep_stop m _ ?_⟩
-  intro b' x' e
-  obtain ⟨rfl, _⟩ := List.cons.inj e
-  exact ⟨h46, h58, h40, h123, h91, h33⟩
-
-/-- a plain name followed by a byte that ends it is one `expression` -/
-theorem name_expr_ok (n : Nat) (hn : 3 ≤ n) (b : UInt8) (cs : Bytes) (hok : NameOk b cs) (c : UInt8) (x : Bytes)
-    (hc : exprEndB c = true) : expression n (b :: cs ++ c :: x) = .ok (c :: x) (b :: cs) := by
-  obtain ⟨m, rfl⟩ : ∃ m, n = m + 1 := ⟨n - 1, by omega⟩
-  refine C05.expression_name_complete b cs (c :: x) hok.1 hok.2 ?_ (stops_of_exprEnd c x hc) m (by omega)
-  intro c' r e
-  obtain ⟨rfl, _⟩ := List.cons.inj e
-  exact (exprEndB_spec hc).1
-
-theorem exprEndB_layoutHead (c : UInt8) (h : isSpace c = true ∨ c = 64) : exprEndB c = true := by
-  obtain ⟨a1, a2, a3, a4, a5, a6, a7, _⟩ := layoutHead_facts c h
-  simp [exprEndB, a1, a2, a3, a4, a5, a6, a7]
-
-/-- … in particular when followed by layout -/
-theorem name_expr_layout (n : Nat) (hn : 3 ≤ n) (b : UInt8) (cs : Bytes) (hok : NameOk b cs) (tail : Bytes)
-    (ht : StartsLayout tail) : expression n (b :: cs ++ tail) = .ok tail (b :: cs) := by
-  obtain ⟨c, x, rfl, hc⟩ := startsLayout_head ht
-  exact name_expr_ok n hn b cs hok c x (exprEndB_layoutHead c hc)
-
-theorem str_dotdot : str ".." = [46, 46] := by decide +kernel
-
-/-- a plain name as the iterable of `@for` -/
-theorem name_iter_ok (n : Nat) (hn : 3 ≤ n) (b : UInt8) (cs : Bytes) (hok : NameOk b cs) :
-    ∀ tail, StartsLayout tail → loopExpression n (b :: cs ++ tail) = .ok tail (b :: cs) := by
-  intro tail ht
-  have hexpr := name_expr_layout n hn b cs hok tail ht
-  obtain ⟨c, x, rfl, hc⟩ := startsLayout_head ht
-  have h46 : c ≠ 46 := (layoutHead_facts c hc).2.1
-  have hv : validUtf8 (b :: cs) = true :=
-    rustName_valid (C05.rustName_complete b cs (c :: x) hok.1 hok.2 (fun c' r e => by
-      obtain ⟨rfl, _⟩ := List.cons.inj e
-      exact (layoutHead_facts _ hc).1))
-  have hdd : tagS ".." (c :: x) = .err [] := by
-    rw [tagS, str_dotdot]; exact tag_cons_ne _ _ _ _ (Ne.symm h46)
-  unfold loopExpression
-  apply mapRes_toStr_of _ hv
-  rw [show b :: cs ++ c :: x = (b :: cs) ++ c :: x from rfl]
-  apply recognize_ok_of (v := b :: cs)
-  exact terminated_of hexpr (opt_err (preceded_err_left (terminated_err_left hdd)))
-
-/-- a plain name as the loop variable of `@for` -/
-theorem name_pat_ok (n : Nat) (hn : 1 ≤ n) (b : UInt8) (cs : Bytes) (hok : NameOk b cs) :
-    ∀ tail, StartsLayout tail →
-      context "Expected loop variable name or destructuring tuple"
-        (alt [mapRes (recognize (preceded rustName (opt (exprInBraces n)))) toStr,
-              pmap (seq (opt (char 38)) (delimited (char 40) (commaExpressions n) (char 41)))
-                (fun (pre, args) => (match pre with | some _ => str "&" | none => []) ++ str "(" ++ args ++ str ")")])
-        (b :: cs ++ tail) = .ok tail (b :: cs) := by
-  intro tail ht
-  obtain ⟨c, x, rfl, hc⟩ := startsLayout_head ht
-  obtain ⟨m, rfl⟩ : ∃ m, n = m + 1 := ⟨n - 1, by omega⟩
-  have hname := C05.rustName_complete b cs (c :: x) hok.1 hok.2 (fun c' r e => by
-      obtain ⟨rfl, _⟩ := List.cons.inj e
-      exact (layoutHead_facts _ hc).1)
-  have hv : validUtf8 (b :: cs) = true := rustName_valid hname
-  have h123 : c ≠ 123 := (layoutHead_facts c hc).2.2.2.2.1
-  have hbr := exprInBraces_cons m c x h123
-  refine context_ok _ (alt_cons_ok ?_)
-  apply mapRes_toStr_of _ hv
-  rw [show b :: cs ++ c :: x = (b :: cs) ++ c :: x from rfl]
-  apply recognize_ok_of (v := none)
-  exact preceded_of hname (opt_err hbr)
-
 /-! ## `@if` chains -/
 
-/-- `if2` on L1 name L2 `{` body `}` + whatever the `else` part gives -/
-theorem if2_name (m : Nat) (hm : 3 ≤ m) (l₁ l₂ : Layout) (h₁ : LayoutOk l₁) (h₂ : LayoutOk l₂) (hne : l₂ ≠ [])
-    (b : UInt8) (cs : Bytes) (hc : CondOk b cs) (bodyB R rest : Bytes) (nodes : List TExpr) (els : Option (List TExpr))
+/-- `if2` on L1 cond L2 `{` body `}` + whatever the `else` part gives -/
+theorem if2_cond (m : Nat) (l₁ l₂ : Layout) (h₁ : LayoutOk l₁) (h₂ : LayoutOk l₂) (hne : l₂ ≠ [])
+    (c : Cond) (hc : c.wf = true) (hm : c.fuel ≤ m) (bodyB R rest : Bytes) (nodes : List TExpr)
+    (els : Option (List TExpr))
     (hbody : templateBlock m (123 :: (bodyB ++ 125 :: R)) = .ok R nodes)
     (he : opt (preceded (delimited spacelike (tagS "else") spacelike)
             (alt [preceded (tagS "if") (pmap (if2 m) (fun e => [e])), templateBlock m])) R = .ok rest els) :
-    if2 (m + 1) (printLayout l₁ ++ (b :: cs ++ (printLayout l₂ ++ 123 :: (bodyB ++ 125 :: R))))
-      = .ok rest (.ifBlock (b :: cs) nodes els) :=
+    if2 (m + 1) (printLayout l₁ ++ (c.print ++ (printLayout l₂ ++ 123 :: (bodyB ++ 125 :: R))))
+      = .ok rest (.ifBlock c.value nodes els) :=
   if2_of_parts m
-    (spacelike_complete l₁ h₁ _ (stopsLayout_append _ _ (name_stopsLayout b cs hc.1.1) (by simp)
-      (printLayout_starts l₂ h₂ hne _)))
-    (name_cond_ok m hm b cs hc.1.1 hc.1.2 hc.2 l₂ _ h₂ hne)
+    (spacelike_complete l₁ h₁ _ ((Cond.fragHead c hc).stops _))
+    (Cond.complete c hc m hm l₂ _ h₂ hne)
     (spacelike_complete l₂ h₂ _ (stopsLayout_cons 123 _ (by decide) (by decide))) hbody he
 
 /-- no `else` branch follows -/
